@@ -80,7 +80,11 @@ package types
 //@ spec func tally(vals *ValidatorSet, commit *Commit, chainID string, n int) int64 =
 //@   | ite(n <= 0, 0, tally(vals, commit, chainID, n-1) + ite(goodSig(vals, commit, chainID, n-1), vals.Validators[n-1].VotingPower, 0))
 
+// commitVerified(...): VerifyCommit (ALL signatures checked) returned nil for exactly these arguments at some point;
+// what that guarantees is VerifyCommit's proved postcondition.
+//@ spec func commitVerified(vals *ValidatorSet, chainID string, bhash []byte, ptotal uint32, phash []byte, height int64, commit *Commit) bool
 //@ func ValidatorSet.VerifyCommit
+//@   grants full: result == nil ==> commitVerified(vals, chainID, blockID.Hash, blockID.PartSetHeader.Total, blockID.PartSetHeader.Hash, height, commit)
 //@   assigns vals.totalVotingPower
 //@   sets lastCommitVerified = ite(result == nil, ref(commit), 0) when true
 //@   ensures wf: wfCached(vals)
@@ -314,6 +318,7 @@ package types
 //@ func Block.MakePartSet
 //@   trusted
 //@   assigns nothing
+//@   ensures some: b != nil ==> result != nil
 
 // Assumed about the protobuf encoder, as for votes: canonical proposal sign bytes are a function of these fields.
 //@ spec func proposalSignBytes(chainID string, typ int32, height int64, round int32, polRound int32, bhash []byte, ptotal uint32, phash []byte, ts int64) []byte
